@@ -189,6 +189,7 @@ UNITS["group"] = {
         "mode": "items", "src": "datacake-eventual-consistency/src/keyspace/group.rs", "out": "group_caller.rs",
         "prelude": "/verif/harness/group/src/prelude_caller.rs",
         "deasync": True,
+        "auto_const_types": ["Duration"],
         "items": [
             {"kind": "type", "name": "KeyspaceMap"},
             {"kind": "struct", "name": "KeyspaceGroup"},
@@ -216,6 +217,7 @@ UNITS["membership"] = {
     "harness_mod": "watch::verif_contracts",
     "kani_flags": [],
     "env": {"VCOLL_CAP": "3", "VCOLL_VCAP": "3"},
+    "max_jobs": 8,  # one kani-driver process per unit: 16 concurrent harness threads exhausted its address-space limit
     "sources": ["datacake-node/src/lib.rs", "datacake-node/src/node.rs"],
     "slice": [
         {"mode": "items", "src": "datacake-node/src/node.rs", "out": "node_types.rs",
@@ -582,14 +584,17 @@ _k("gr_binding_preserved", "group", "P", "KeyspaceGroup::get_or_create_keyspace 
    "arbitrary group map, environment steps at both former await points: result == map'[name]; a binding once set (before the call or by another task in the window) is never replaced")
 
 # ---- unit membership
-for _p in range(16):
-    _b = format(_p, "04b")
-    _k(f"mb_step_{_b}", "membership", "B", "watch_membership_changes",
-       f"two consecutive snapshots over ids {{self,1,2}}; presence of nodes 1,2 in the previous / current snapshot = {_b[:2]} / {_b[2:]} (concrete per harness), addresses (3, shared pool: address change "
-       "and take-over by another id included) and data centres (2) symbolic; the first snapshot is arbitrary within the bound => inductive step: joined/left exact (left as members of the "
-       "PREVIOUS snapshot with the address they had); consumer fold == others(cur); departed unused addresses disconnected, nothing else; set_nodes gets exactly cur's DC layout",
-       bound="2 snapshots x 3 ids (self + two other nodes) x 3 addresses x 2 DCs; presence pattern concrete per harness (all 16 patterns registered)",
-       tier="quick")
+_MB_PREVS = ((0, 0), (1, 0), (0, 1), (1, 2))
+_MB_CURS = tuple((a, b) for a in range(4) for b in range(4) if not (a != 0 and a == b))
+MB_STEPS = [f"mb_step_{a}{b}_{c}{d}" for (a, b) in _MB_PREVS for (c, d) in _MB_CURS]
+for _n in MB_STEPS:
+    _k(_n, "membership", "B", "watch_membership_changes",
+       f"two consecutive snapshots over ids {{self,1,2}}; address of node 1 / node 2 (0 = absent, 1..3 = shared address pool) in the previous / current snapshot = {_n[8:10]} / {_n[11:13]} "
+       "(concrete per harness), data centre of every member (2 names) symbolic; the first snapshot is processed from the empty state, the second from the state the first left => "
+       "inductive step: joined/left exact (left as members of the PREVIOUS snapshot with the address they had); consumer fold == others(cur); departed unused addresses disconnected, "
+       "nothing else; set_nodes gets exactly cur's DC layout",
+       bound="2 snapshots x 3 ids (self + two other nodes) x 3 addresses x 2 DCs; who is where is concrete per harness (4 canonical previous x 13 current assignments = 52 transitions, all registered)",
+       tier="quick" if (_n[8:10] in ("10", "12") or _n in ("mb_step_00_00", "mb_step_00_10", "mb_step_00_12")) else "thorough")
 
 _k("mb_slow_subscriber", "membership", "B", "watch_membership_changes + the latest-value delta channel",
    "concrete history: node 1 joins, a second (unchanged) snapshot is processed before the subscriber reads: the subscriber, handed the latest delta only, must still hold node 1 -- "
@@ -701,10 +706,10 @@ PROPERTIES = {
                         "crash points: the rebuilt state is a function of storage alone (the contract quantifies over every storage content), so the in-memory state at the crash is irrelevant"],
     },
     "C16": {
-        "obligations": [f"mb_step_{p:04b}" for p in range(16)] + ["mb_slow_subscriber", "lemmas_membership"],
+        "obligations": MB_STEPS + ["mb_slow_subscriber", "lemmas_membership"],
         "level": "other",
         "explanation": "bounded contract checking (class B): the delta function of watch_membership_changes for one transition from an ARBITRARY previous snapshot "
-                       "(self + two other nodes x 3 shared addresses x 2 data centres; presence pattern concrete per harness, all 16 registered; addresses and data centres symbolic -- an inductive step over snapshot histories inside that size) plus the unbounded Verus fold lemma "
+                       "(self + two other nodes x 3 shared addresses x 2 data centres; who is present at which address is concrete per harness -- 52 transitions, previous snapshot canonical up to renaming of addresses -- data centres symbolic; an inductive step over snapshot histories inside that size) plus the unbounded Verus fold lemma "
                        "(a consumer applying every event holds the last snapshot)",
         "assumptions": [],
     },
